@@ -904,6 +904,11 @@ func (o *w1Oracle) checkForgotten(w *w1World, inst *w1Inst, held map[uint32]stri
 			w.r.Probes["second_lost_with_crashed_agent"]++
 		case w.mayAgeOut() && at.T+window < nowUnix:
 			w.r.Probes["second_dropped_outside_window"]++
+		case w.cfg.diskless:
+			// Without a disk cache a historic sender between two attempts (1 s after a failure or a "keep",
+			// 10 s without a live replica) holds its second in a local variable: neither queued nor in flight,
+			// and no seam shows it. "Not visible now" proves nothing here; the liveness clause decides these runs.
+			w.r.Probes["diskless_second_neither_queued_nor_in_flight_at_check"]++
 		default:
 			fails = append(fails, w1Fail{"C01", "forgotten_without_ack", when, fmt.Sprintf("%s: agent%d no longer holds second %d (not on disk, not queued, not in flight) although no aggregator response with discard=true ever reached it; window %d s, now %d", when, at.a, at.T, window, nowUnix)})
 		}
